@@ -423,6 +423,59 @@ def line_types(man):
     man["c17_line_types"] = {"chunk_lines_element": elem, "line_declarations": fields, "problems": problems}
     return not problems
 
+# ---------------------------------------------------------------------------------------------------------
+# scanner.rs: every place that can consume a "\n" counts it, and nothing else moves the line counter
+
+def newline_shape(man):
+    sc = toks_of("scanner.rs")
+    NL = '"\\n"'
+    problems, arms, fns_with_arm = [], 0, set()
+    fns = vm_functions(sc)
+
+    def owner(i):
+        best = None
+        for name, o, c in fns:
+            if o < i < c and (best is None or o > best[1]):
+                best = (name, o, c)
+        return best[0] if best else "?"
+
+    def has_incr(lo, hi):
+        return find_sub(texts(sc, lo, hi + 1), ["self", ".", "line", "+=", "1", ";"]) >= 0
+    for i, t in enumerate(sc):
+        if t.kind == "str" and t.text == NL:
+            nxt, prev = sc[i + 1].text, sc[i - 1].text
+            if nxt == "=>":                               # match arm  "\n" => { ... }
+                if sc[i + 2].text != "{":
+                    problems.append("scanner.rs:%d: \"\\n\" arm without a block" % t.line)
+                    continue
+                e = match_group(sc, i + 2)
+                arms += 1
+                fns_with_arm.add(owner(i))
+                if not has_incr(i + 2, e):
+                    problems.append("scanner.rs:%d: the \"\\n\" arm of %s does not count the line" % (t.line, owner(i)))
+            elif prev == "==" or (prev == "(" and sc[i - 2].text == "match_char"):
+                # `x == "\n"` / match_char("\n") guarding a block: the block consumes the newline -> it must count it
+                j = i
+                while j < len(sc) and sc[j].text not in ("{", ";"):
+                    j += 1
+                if j >= len(sc) or sc[j].text != "{" or not has_incr(j, match_group(sc, j)):
+                    problems.append("scanner.rs:%d: %s tests for \"\\n\" and does not count the line" % (t.line, owner(i)))
+            elif prev == "!=" or (prev == "(" and sc[i - 2].text == "push_str"):
+                pass                                      # stops BEFORE the newline / writes one into a literal's value
+            else:
+                problems.append("scanner.rs:%d: unrecognised use of \"\\n\" in %s" % (t.line, owner(i)))
+    b = texts(sc, 0, len(sc))
+    incrs = len([1 for i in range(len(b) - 5) if b[i:i + 6] == ["self", ".", "line", "+=", "1", ";"]])
+    writes = len([1 for i in range(len(b) - 3) if b[i:i + 3] == ["self", ".", "line"] and b[i + 3] in ("=", "+=", "-=", "*=")])
+    if incrs != arms or writes != incrs:
+        problems.append("scanner.rs: %d writes of self.line, %d of them `+= 1`, for %d \"\\n\" arms" % (writes, incrs, arms))
+    for need in ("skip_whitespace", "string"):
+        if need not in fns_with_arm:
+            problems.append("scanner.rs: fn %s has no \"\\n\" arm" % need)
+    man["c17_scanner_newlines"] = {"newline_arms": arms, "line_increments": incrs, "functions": sorted(fns_with_arm), "problems": problems}
+    return not problems
+
+
 def coq_bool(b):
     return "true" if b else "false"
 
@@ -441,6 +494,7 @@ def gen_unwindarms(man):
     clits, cshape, emit_prev = error_at_shape(man)
     dispatch_ok = dispatch_shape(man)
     lines_wide = line_types(man)
+    newlines_ok = newline_shape(man)
     tl = (tlits + [None] * 3)[:3] if len(tlits) == 3 else [None] * 3
     cl = clits if len(clits) == 4 else [None] * 4
     templates = [tl[0], tl[1], tl[2], mod_fmt, ufmt, exc, ctx, cl[0], cl[1], cl[2], cl[3]]
@@ -464,6 +518,9 @@ def gen_unwindarms(man):
              "Definition dispatch_errors_go_through_handlers : bool := %s." % coq_bool(dispatch_ok),
              "(* chunk.rs Chunk.lines / write, scanner.rs Token.line / Scanner.line, every `line as T`: at least 32 bits *)",
              "Definition line_types_wide : bool := %s." % coq_bool(lines_wide),
+             "(* scanner.rs: every \"\\n\" match arm (skip_whitespace, string) does `self.line += 1`; no test `== \"\\n\"` /",
+             "   match_char(\"\\n\") consumes a newline without counting it; self.line is written nowhere else *)",
+             "Definition scanner_counts_every_newline : bool := %s." % coq_bool(newlines_ok),
              "(* vm.rs fn new_error_from_value: class name of the instance, message split at newlines *)",
              "Definition unhandled_names_instance_class : bool := %s." % coq_bool(udesc),
              "(* compiler.rs fn error_at: token.line, Eof / Error arms; fn emit_byte: previous.line *)",
